@@ -12,6 +12,7 @@ KIND_SQL = {
     'begin': 'BEGIN', 'stmt': 'SELECT 1', 'fail': 'BAD syntax here', 'commit': 'COMMIT',
     'set': "SET statement_timeout TO 1234",
     'copyin': 'COPY t FROM STDIN',
+    'reset1': 'RESET vacuum_cost_delay',
     'big': 'SELECT 1 /*v:rows=4,size=3000*/',
     'slow': 'SELECT 1 /*v:sleep=720*/',
 }
@@ -56,10 +57,16 @@ def run_scenario(item):
         general['idle_timeout'] = 300
     obs = []          # client-side observations / anomalies
     out = {'id': item['id'], 'obs': obs, 'cfg': {'mode': mode, 'pool_size': pool_size, 'ps_cache': ps_cache,
-                                                 'early': early_variant}}
+                                                 'early': early_variant, 'mode_at': item.get('mode_at', 'pool')}}
     with World('pc') as w:
         be = w.backend('p0', role='primary')
-        pool = simple_pool([['127.0.0.1', be.port, 'primary']], pool_size=pool_size, mode=mode, user=user_extra)
+        if item.get('mode_at') == 'user':
+            # the pool mode is given for the user and contradicts the pool-level setting: the user's one counts
+            user_extra['pool_mode'] = mode
+            pool = simple_pool([['127.0.0.1', be.port, 'primary']], pool_size=pool_size,
+                               mode='session' if mode == 'transaction' else 'transaction', user=user_extra)
+        else:
+            pool = simple_pool([['127.0.0.1', be.port, 'primary']], pool_size=pool_size, mode=mode, user=user_extra)
         if ps_cache:
             pool['prepared_statements_cache_size'] = ps_cache
         w.start(general=general, pools={'db': pool})
